@@ -292,7 +292,7 @@ macro_rules! node_impl {
                             span: r.key_span.clone(),
                             knuth_pltotf_offset: Some(r.key_span.end),
                             kind: ParseWarningKind::InvalidPropertyName {
-                                provided_name: r.key.into(),
+                                provided_name: std::mem::take(&mut r.key),
                                 allowed_property_names: $type::ALL_PROPERTY_NAMES,
                             }
                         });
@@ -827,15 +827,15 @@ struct Input<'a> {
 }
 
 impl<'a> Input<'a> {
-    fn new(p: cst::RegularNode, errors: &'a mut Vec<ParseWarning>) -> (Self, Vec<cst::Node>) {
+    fn new(mut p: cst::RegularNode, errors: &'a mut Vec<ParseWarning>) -> (Self, Vec<cst::Node>) {
         (
             Input {
-                raw_data: p.data.unwrap_or_default(),
+                raw_data: p.data.take().unwrap_or_default(),
                 raw_data_offset: 0,
                 errors,
-                raw_data_span: p.data_span,
+                raw_data_span: p.data_span.clone(),
             },
-            p.children.unwrap_or_default(),
+            p.children.take().unwrap_or_default(),
         )
     }
     fn skip_error(&mut self, error: ParseWarning) {
